@@ -856,9 +856,19 @@ impl<'a> IrEmitter<'a> {
             quote! {}
         };
 
+        // `incan test` compiles the whole file once per selected test: mark that one function with `#[test]` so that
+        // `cargo test` actually executes it. libtest only accepts synchronous functions without parameters.
+        let is_selected_test = self.test_function.as_deref() == Some(func.name.as_str());
+        let test_attr = if is_selected_test && !is_main && func.params.is_empty() && !func.is_async {
+            quote! { #[test] }
+        } else {
+            quote! {}
+        };
+
         let ret_ty_is_unit = matches!(func.return_type, IrType::Unit);
         if is_main || ret_ty_is_unit {
             Ok(quote! {
+                #test_attr
                 #tokio_main_attr
                 #vis #async_kw fn #name(#(#params),*) {
                     #zen_stmt
@@ -869,6 +879,7 @@ impl<'a> IrEmitter<'a> {
         } else {
             let ret_ty = self.emit_type(&func.return_type);
             Ok(quote! {
+                #test_attr
                 #tokio_main_attr
                 #vis #async_kw fn #name(#(#params),*) -> #ret_ty {
                     #(#body_stmts)*
